@@ -12,9 +12,11 @@ Inductive query :=
 | QCall (range : option (Z * Z)) (rev discard asvec : bool) (ps : list (vec3 Q))
         (stack : list (list fl)) (singles : list (list fl)).
 
-(* ops in call order; what each call returned (index) or raised; len(transforms) and the stored pairs at the end *)
-Inductive case :=
-| CHistory (ops : list (op Q)) (results : list (result nat)) (pairs : list (list fl * list fl)) (qs : list query).
+(* one object, events in call order: an appending call with what it returned (index) or raised, or a query that is
+   answered by the object AS IT IS AT THAT POINT of the history (queries are interleaved with appends, the same
+   query may be repeated later); at the end the stored pairs *)
+Inductive event := EOp (o : op Q) (r : result nat) | EQ (q : query).
+Inductive case := CTimeline (evs : list event) (pairs : list (list fl * list fl)).
 
 Definition mat_mag (m : mat4 Q) : Q := fold_left (fun a x => Qmax' a (Qabs x)) (mlist m) 0.
 Definition state_mag (st : cstate (F:=Q)) : Q :=
@@ -49,11 +51,19 @@ Definition check_query (st : cstate (F:=Q)) (q : query) : bool :=
       all2 (list_close_mag mag) (map (call_single QOps st range rev discard asvec) ps) singles
   end.
 
+Fixpoint run_events (evs : list event) (st : cstate (F:=Q)) : bool * cstate (F:=Q) :=
+  match evs with
+  | [] => (true, st)
+  | EOp o r :: rest =>
+      match step QOps st o with
+      | Ok (st', i) => let (b, fin) := run_events rest (snap_state st') in (res_nat_agree (Ok i) r && b, fin)
+      | Raise e => let (b, fin) := run_events rest st in (res_nat_agree (Raise e) r && b, fin)
+      end
+  | EQ q :: rest => let (b, fin) := run_events rest st in (check_query st q && b, fin)
+  end.
+
 Definition check_case (c : case) : bool :=
   match c with
-  | CHistory ops results pairs qs =>
-      let st := snap_state (run_ops QOps ops []) in
-      all2 res_nat_agree (run_results QOps ops []) results &&
-      all2 pair_close st pairs &&
-      forallb (check_query st) qs
+  | CTimeline evs pairs =>
+      let (b, fin) := run_events evs [] in b && all2 pair_close fin pairs
   end.
